@@ -1,3 +1,5 @@
+from copy import copy
+
 from reamber.algorithms.convert.ConvertBase import ConvertBase
 from reamber.osu.OsuMap import OsuMap
 from reamber.osu.lists.OsuBpmList import OsuBpmList
@@ -37,6 +39,6 @@ class QuaToOsu(ConvertBase):
         osu.creator = qua.creator
         osu.version = qua.difficulty_name
         osu.preview_time = qua.song_preview_time
-        osu.tags = qua.tags
+        osu.tags = copy(qua.tags)
 
         return osu
